@@ -153,7 +153,7 @@ class KindFlow:
 
     def kinds_of_call(self, call, env):
         f = norm(call.func)
-        if f == "evaluate":
+        if f in ("evaluate", "parse"):
             return set(E_KINDS)
         if f == "value_evaluate":
             return set(V_KINDS)
@@ -199,12 +199,43 @@ class KindFlow:
         return env
 
     def check_expr(self, e, env):
-        for n in ast.walk(e):
-            if isinstance(n, ast.Attribute) and isinstance(n.value, ast.Name) and n.value.id in env and env[n.value.id] is not None and isinstance(n.ctx, ast.Load):
-                self.checked += 1
-                lacking = sorted(k for k in env[n.value.id] if n.attr not in self.attrs.get(k, set()))
-                if lacking:
-                    self.findings.append((n.value.id, n.attr, lacking, n.lineno))
+        """Attribute uses on names of known kind; a comprehension over an operand known to be a sequence binds its variable to the kinds an
+        element of an evaluated sequence may have (E_KINDS: `a, (b, c)` nests)."""
+        if isinstance(e, (ast.GeneratorExp, ast.ListComp, ast.SetComp, ast.DictComp)):
+            inner = dict(env)
+            for g in e.generators:
+                self.check_expr(g.iter, inner)
+                ik = self.expr_kinds(g.iter, inner)
+                for t in ast.walk(g.target):
+                    if isinstance(t, ast.Name):
+                        inner[t.id] = set(E_KINDS) if (ik and "list" in ik and t is g.target) else None
+                for c in g.ifs:
+                    self.check_expr(c, inner)
+                    inner = self.narrow(c, inner, True)
+            for part in ([e.key, e.value] if isinstance(e, ast.DictComp) else [e.elt]):
+                self.check_expr(part, inner)
+            return
+        if isinstance(e, ast.Attribute) and isinstance(e.value, ast.Name) and e.value.id in env and env[e.value.id] is not None and isinstance(e.ctx, ast.Load):
+            self.checked += 1
+            lacking = sorted(k for k in env[e.value.id] if e.attr not in self.attrs.get(k, set()))
+            if lacking:
+                self.findings.append((e.value.id, e.attr, lacking, e.lineno))
+        if isinstance(e, ast.IfExp):
+            self.check_expr(e.test, env)
+            self.check_expr(e.body, self.narrow(e.test, env, True))
+            self.check_expr(e.orelse, self.narrow(e.test, env, False))
+            return
+        if isinstance(e, ast.BoolOp):
+            cur = env
+            for v in e.values:
+                self.check_expr(v, cur)
+                cur = self.narrow(v, cur, isinstance(e.op, ast.And))
+            return
+        if isinstance(e, ast.Lambda):
+            return
+        for child in ast.iter_child_nodes(e):
+            if isinstance(child, (ast.expr, ast.keyword, ast.comprehension, ast.FormattedValue)):
+                self.check_expr(child if not isinstance(child, ast.keyword) else child.value, env)
 
     def block(self, stmts, env):
         """-> env after the block, or None when every path returned/raised."""
@@ -393,7 +424,7 @@ def run(repo, chk):
     chk.ob("R18.1", "opparse.ASTNode.__init__:has-location", any(isinstance(n, ast.Assign) and norm(n.targets[0]) == "self.location" for n in walk_local(an0.node)), an0.where,
            "every parse node carries a location: the operand checks of the evaluation actions raise `node.location.syntax_error(...)`")
     # ---------------- R18.2
-    attrs = {"Element": class_attrs(repo, "selector.Element"), "Call": class_attrs(repo, "selector.Call"), "list": set(dir(list)),
+    attrs = {"Element": class_attrs(repo, "selector.Element"), "Call": class_attrs(repo, "selector.Call"), "list": set(dir(list)), "str": set(dir(str)),
              "VSymbol": class_attrs(repo, "selector.VSymbol"), "VCall": class_attrs(repo, "selector.VCall"), "VKeyword": class_attrs(repo, "selector.VKeyword")}
     actions = [fi for q, fi in repo.functions.items() if fi.module == "selector" and
                any(isinstance(d, ast.Call) and isinstance(d.func, ast.Attribute) and d.func.attr == "register_action" for d in fi.node.decorator_list)]
@@ -403,7 +434,8 @@ def run(repo, chk):
         if fi.qual == "selector._guarantee_call":
             env = {fi.node.args.args[1].arg: set(E_KINDS)}
         if fi.qual == "selector._select":
-            env = {}
+            # a string, or what parsing a string gives; anything else is the caller's own object (refused by the isinstance test)
+            env = {fi.node.args.args[0].arg: {"str"} | set(E_KINDS)}
         kf.block(fi.node.body, env)
         chk.count("attribute uses on operands checked", kf.checked)
         if kf.findings:
@@ -425,6 +457,10 @@ def run(repo, chk):
     kf = KindFlow(repo, attrs)
     kf.block(fx.body, {})
     chk.fixture("R18.2", "clone on an unchecked operand", True, bool(kf.findings))
+    fx = parse_fixture("def f(selector):\n    selector = parse(selector)\n    if not isinstance(selector, Call):\n        raise SelectorError(', '.join(p.encode() for p in selector))\n    return selector\n").body[0]
+    kf = KindFlow(repo, attrs)
+    kf.block(fx.body, {})
+    chk.fixture("R18.2", "attribute of an element of an evaluated sequence while building the refusal", True, bool(kf.findings))
     fx = parse_fixture("def make_class(node, element, tag, context):\n    element = evaluate(element, context=context)\n    element = _expect(node, element, Element, 'x')\n    return element.clone(category=tag)\n").body[0]
     kf = KindFlow(repo, attrs)
     kf.block(fx.body, {})
